@@ -124,6 +124,11 @@ func c08Predicate(s string) (res c08Result) {
 		stage = "Expr.Eval"
 		res.Evald = true
 		e.Eval(map[string]interface{}{})
+		// and on a document in which short names resolve, so that sub-expressions
+		// behind paths, predicates and transform patterns are reached as well
+		var doc interface{}
+		json.Unmarshal([]byte(`{"a":{"b":[1,2],"c":"b","d":{"x":1},"k":["c","d"]},"b":2,"c":"s","d":{"x":[3]},"k":"a","x":[{"a":1,"b":"c"},{"a":2}],"foo":{"a":1}}`), &doc)
+		e.Eval(doc)
 	}
 	return res
 }
@@ -422,7 +427,7 @@ var c08Templates = []string{
 	`a{X: 1}`, `a{"k": X}`, `X{"k": 1}`, `$f(X)`, `$f(1, X)`, `X(1)`, `$f(?, X)`, `a[X]`, `X[1]`, `a[1][X]`, `a.X`, `X.a`, `a.b[X].c`, `a.(X)`, `$$.X`, `**.X`, `a.X[]`,
 	`X ? 1 : 2`, `1 ? X : 2`, `1 ? 2 : X`, `1 ? X`, `$v := X`, `($v := X; $v)`, `function($a){X}`, `function($a){X}(1)`, `function($a)<n:n>{X}`, `λ($a){X}`,
 	`a^(X)`, `a^(>X, b)`, `a^(b, <X)`, `X^(a)`, `X + 1`, `1 + X`, `X * 2`, `X & "s"`, `"s" & X`, `X = 1`, `1 != X`, `X < 1`, `X and true`, `true or X`, `X in [1]`, `1 in X`, `-X`, `-(X)`,
-	`X ~> $f`, `a ~> X`, `a ~> $f(X)`, `|X|{"a":1}|`, `|a|X|`, `|a|{"b":1}, X|`, `a ~> |b|{"c": X}|`, `[1, [2, {"a": [X]}]]`, `$map(a, function($v){X})`, `(function(){X})()`,
+	`X ~> $f`, `a ~> X`, `a ~> $f(X)`, `|X|{"a":1}|`, `|a|X|`, `|a|{"b":1}, X|`, `a ~> |b|{"c": X}|`, `$ ~> |a|{"z": 1}, X|`, `$ ~> |X|{"z": 1}|`, `$ ~> |a|X|`, `$ ~> |a|{"z": X}, "b"|`, `a ~> |$|{"z": 1}, X|`, `$ ~> |x|{"z": 1}, X|`, `[1, [2, {"a": [X]}]]`, `$map(a, function($v){X})`, `(function(){X})()`,
 }
 
 // c08Rejected: expressions that Compile rejects in its second (tree
@@ -438,7 +443,7 @@ var c08Rejected = []string{
 func TestC08_ErrorPositions(t *testing.T) {
 	rec := begin(t, "C08", "enumerated: 66 one-hole templates covering every expression position of every construct x 25 sub-expressions that Compile rejects on their own (path literals, double grouping, predicate after grouping, illegal assignment/parameters, bad regex/escape/number, truncated constructs) - the whole text must be rejected - and x 12 valid sub-expressions through the general predicate; distinct by text")
 	defer finish(t, rec)
-	valid := []string{`a`, `1`, `"s"`, `$x`, `[1]`, `{"a":1}`, `$f(1)`, `function($q){$q}`, `/a/`, `a.b[0]`, `a{"k": b}`, `a^(b)`}
+	valid := []string{`a`, `1`, `"s"`, `$x`, `[1]`, `{"a":1}`, `$f(1)`, `function($q){$q}`, `/a/`, `a.b[0]`, `a{"k": b}`, `a^(b)`, `a.c`, `a.k`, `d.x`, `b[]`, `"b"`, `["b", "c"]`, `a.d{"k": x}`, `k[0]`}
 	var all []c08Case
 	// only sub-expressions that are rejected on their own on this tree are claimed
 	var rejected []string
